@@ -6,7 +6,7 @@ import os
 import re
 
 ROOT = os.path.dirname(os.path.dirname(os.path.abspath(__file__)))
-rows, first, later = [], 0, 0
+rows, first, later, missed = [], 0, 0, []
 for p in sorted(glob.glob(ROOT + "/seeded/*/meta.json")):
     m = json.load(open(p))
     sid = os.path.basename(os.path.dirname(p))
@@ -21,11 +21,13 @@ for p in sorted(glob.glob(ROOT + "/seeded/*/meta.json")):
         first += 1
         col = "from the first version"
     needs = m.get("needs", "")[:170].replace("|", "/").replace("\n", " ")
-    rows.append("| `%s` | %s… | %s | %s |" % (sid, needs, ", ".join(sorted(set(caught + extra))), col))
+    if not (caught or extra):
+        missed.append(sid)
+    rows.append("| `%s` | %s… | %s | %s |" % (sid, needs, ", ".join(sorted(set(caught + extra))) or "**not caught**", col))
 slow = [r for r in rows if "(thorough tier)" in r and not re.search(r"\| (C\d\d(, )?)+ \|", r)]
-head = ("%d changes; %d were caught by the first version of the checks, %d only after the checks were strengthened\n(none is missed now; %d of them only by the thorough tier, "
+head = ("%d changes; %d were caught by the first version of the checks, %d only after the checks were strengthened\n(%s; %d of them only by the thorough tier, "
         "because it needs minutes of wall-clock time):\n\n"
-        "| seeded change | needs (from its author) | caught by | first version? |\n|---|---|---|---|\n" % (len(rows), first, later, len(slow)))
+        "| seeded change | needs (from its author) | caught by | first version? |\n|---|---|---|---|\n" % (len(rows), first, later, ("none is missed now" if not missed else "NOT caught at present: " + ", ".join("`%s`" % m for m in missed)), len(slow)))
 table = "<!-- seeded-table-begin -->\n" + head + "\n".join(rows) + "\n<!-- seeded-table-end -->"
 d = open(ROOT + "/DESIGN.md").read()
 if "<!-- seeded-table-begin -->" in d:
